@@ -108,6 +108,54 @@ Section Generic.
   Proof. exact e_fetch. Qed.
 End Generic.
 
+(* ------------------------------------------------------------------ the outputs at any reset level: the request lines do not
+   depend on i_rst (the testbench samples the request of the instruction at address 0 while reset is still asserted) *)
+Definition outs_check (rst : Z) (d : design) : bool :=
+  forallb (fun k => pairs_ok (sub2 n_fdata "i_rst" k rst) (outputs d) (outputs (spec k))) bytes256.
+
+Section OutsAt.
+  Variable d : design.
+  Hypothesis CHK : hex_check d = true.
+  Variable rst : Z.
+  Hypothesis OC : outs_check rst d = true.
+  Variable s : rstate.
+  Hypothesis W : wf s.
+  Let e := cycle_env d rst (fun _ => 0) s.
+
+  Lemma r_var n : not_wire d n = true -> var e n = var (base_env rst (fun _ => 0) s) n.
+  Proof. intros H. unfold e, cycle_env. apply env_wires_var_other. apply negb_true_iff. exact H. Qed.
+
+  Lemma r_ok : env_ok e s (var e n_ddata).
+  Proof.
+    destruct (chk_parts d CHK) as [_ [P1 [P2 [P3 [P4 _]]]]].
+    constructor; try (rewrite r_var by assumption; reflexivity); [reflexivity|].
+    intros a. unfold e, cycle_env. rewrite env_wires_arr. reflexivity.
+  Qed.
+
+  Lemma r_rst : var e "i_rst" = rst.
+  Proof. destruct (chk_parts d CHK) as [_ [_ [_ [_ [_ [P _]]]]]]. rewrite r_var by assumption. reflexivity. Qed.
+
+  Lemma r_fetch_val : var e n_fdata = r_fetch s.
+  Proof.
+    destruct (chk_parts d CHK) as [P0 [_ [_ [_ [_ [_ [P _]]]]]]]. unfold first_wire_is_fetch in P.
+    pose proof (cycle_env_wire_values d rst (fun _ => 0) s P0) as V. fold e in V. cbv zeta in V.
+    destruct (wires d) as [|w r]; [discriminate|]. apply andb_prop in P. destruct P as [P1 P2].
+    apply String.eqb_eq in P1. cbn [map] in V. injection V as V _. unfold evalp in V. cbn [fst snd] in V.
+    rewrite <- P1. rewrite V. rewrite (exp_ok_sound e nosub _ _ (nosub_agrees e) P2).
+    apply (ev_fetch e s (var e n_ddata) W r_ok).
+  Qed.
+
+  Theorem outs_at_are_ref :
+    map (evalp e) (outputs d) = [("o_syscall"%string, ref_syscall s); ("o_syscall_valid"%string, ref_syscall_valid s)].
+  Proof.
+    pose proof OC as K. unfold outs_check in K. rewrite forallb_forall in K.
+    specialize (K _ (in_bytes256 _ (fetch_range s))).
+    rewrite (pairs_ok_sound e _ (sub2_agrees e n_fdata "i_rst" _ _ r_fetch_val r_rst) _ _ K).
+    unfold spec. cbn [outputs map]. unfold evalp. cbn [fst snd].
+    cbn [eval]. fold xA. rewrite (ev_A e s _ W r_ok). change (2 ^ 0) with 1. change (2 ^ 2) with 4. rewrite Z.div_1_r. reflexivity.
+  Qed.
+End OutsAt.
+
 (* ------------------------------------------------------------------ reset: a clock edge with i_rst = 1 clears the registers,
    whatever the state, the fetched byte and the x constants *)
 Definition reset_check (d : design) : bool :=
@@ -196,3 +244,11 @@ Theorem rtl_outs_are_ref : forall s, wf s ->
 Proof. intros s W. exact (outs_are_ref _ hex_check_true s W). Qed.
 Theorem rtl_fetch_is_ref : forall s, wf s -> wire RtlHex.design s n_fdata = r_fetch s.
 Proof. intros s W. exact (fetch_is_ref _ hex_check_true s W). Qed.
+
+Lemma outs_check_reset_true : outs_check 1 RtlHex.design = true.
+Proof. vm_compute. reflexivity. Qed.
+Theorem rtl_outs_in_reset : forall s, wf s ->
+  map (evalp (cycle_env RtlHex.design 1 (fun _ => 0) s)) (outputs RtlHex.design) =
+  [("o_syscall"%string, ref_syscall s); ("o_syscall_valid"%string, ref_syscall_valid s)].
+Proof. intros s W. exact (outs_at_are_ref _ hex_check_true 1 outs_check_reset_true s W). Qed.
+
